@@ -54,6 +54,8 @@ func checkC19(c *Ctx) {
 	ruleSearchResDiscipline(c, "C19.i")
 	c.rule("C19.j", "a parsed NOT/OR key is recorded whatever it contains", 2)
 	ruleNestedKeysRecorded(c, "C19.j")
+	c.rule("C19.k", "And appends the operand's list elements as they are (number sets keep their identity: the $ marker survives)", 9)
+	ruleAndSharesElements(c, "C19.k")
 }
 
 // ruleConjunctiveMatcher: (*imapmemserver.message).search must be a
